@@ -48,7 +48,7 @@ package messages
 //@   modifies r.pos, r.err
 //@   ensures rwf(r)
 //@   ensures result.1 == nil <==> (old(r.err) == nil && old(r.pos) + 1 <= len(r.buf))
-//@   ensures result.1 == nil ==> result.0 == (r.buf[old(r.pos)] != 0) && r.pos == old(r.pos) + 1 && r.err == nil
+//@   ensures result.1 == nil ==> (r.buf[old(r.pos)] == 0 ==> !result.0) && (r.buf[old(r.pos)] == 1 ==> result.0) && r.pos == old(r.pos) + 1 && r.err == nil
 //@   ensures result.1 != nil ==> r.pos == old(r.pos) && r.err != nil
 
 //@ func (*Reader).ReadUint16
